@@ -277,7 +277,7 @@ def select(prop, thorough, rng):
     elif prop == 'C03':
         defs = pick('C03')
         kinds = ['tok', 'ret', 'skip', 'sw', 'sw', 'swret', 'swret', 'cont']
-        defs += [F.rand_def(rng, 'rs%d' % j, nsets=rng.choice([2, 3, 3, 4]), kinds=kinds, maxrules=3, depth=1, tags=['C03']) for j in range(nrand)]
+        defs += [F.rand_def(rng, 'rs%d' % j, nsets=rng.choice([2, 3, 3, 4]), kinds=kinds, maxrules=3, depth=1, tags=['C03'], empty_p=0.35) for j in range(nrand)]
         defs += [dyn_def(rng, 'dy%d' % j) for j in range(nrand // 3)]
         defs += [stale_family(rng, 'st%d' % j) for j in range(nrand // 3)]
     elif prop == 'C04':
@@ -300,7 +300,7 @@ def select(prop, thorough, rng):
     elif prop == 'C08':
         defs = pick('C08')
         kinds = ['tok', 'ret', 'skip', 'sw', 'sw', 'swret', 'cont']
-        defs += [F.rand_def(rng, 'rc%d' % j, nsets=rng.choice([2, 2, 3]), kinds=kinds, maxrules=3, depth=1, tags=['C08']) for j in range(nrand)]
+        defs += [F.rand_def(rng, 'rc%d' % j, nsets=rng.choice([2, 2, 3]), kinds=kinds, maxrules=3, depth=1, tags=['C08'], empty_p=0.2) for j in range(nrand)]
         defs += [dyn_def(rng, 'dr%d' % j) for j in range(nrand // 3)]
         defs += [stale_family(rng, 'st%d' % j) for j in range(nrand // 3)]
     elif prop == 'C09':
@@ -308,6 +308,7 @@ def select(prop, thorough, rng):
         defs += [F.rand_def(rng, 'pg%d' % j, ctx_p=0.2, eof_p=0.15, tags=['C09']) for j in range(nrand)]
         defs += [dyn_def(rng, 'dp%d' % j) for j in range(nrand // 3)]
         defs += [stale_family(rng, 'st%d' % j) for j in range(nrand // 2)]
+        defs += [loc_def(rng, 'lt%d' % j, text=True) for j in range(nrand // 3)]
     elif prop == 'C10':
         defs = pick('C10')
         defs += [dyn_def(rng, 'da%d' % j) for j in range(nrand)]
